@@ -5,6 +5,7 @@ from typing import Any, Optional, Union
 
 from tartiflette.coercers.common import CoercionResult, Path, coercion_error
 from tartiflette.coercers.inputs.null_coercer import null_coercer_wrapper
+from tartiflette.coercers.literals.utils import relocate_default_value_errors
 from tartiflette.constants import UNDEFINED_VALUE
 from tartiflette.utils.errors import did_you_mean
 from tartiflette.utils.values import is_invalid_value
@@ -39,8 +40,11 @@ async def input_field_value_coercer(
     """
     if is_invalid_value(value):
         if input_field.default_value is not None:
-            return await input_field.literal_coercer(
-                parent_node, input_field.default_value, ctx
+            return relocate_default_value_errors(
+                await input_field.literal_coercer(
+                    parent_node, input_field.default_value, ctx
+                ),
+                node,
             )
         if input_field.graphql_type.is_non_null_type:
             return CoercionResult(
